@@ -774,13 +774,21 @@ class CFG:
             The equivalent PDA when accepting on empty stack
         """
         state = pda.State("q")
-        pda_object_creator = PDAObjectCreator(self._terminals, self._variables)
+        variables = self._variables
+        start_symbol = self._start_symbol
+        if start_symbol is None:
+            # Nothing is generated: start from a symbol without production
+            start_symbol = Variable("#NOSTART#")
+            while start_symbol in variables:
+                start_symbol = Variable(start_symbol.value + "#")
+            variables = variables.union({start_symbol})
+        pda_object_creator = PDAObjectCreator(self._terminals, variables)
         input_symbols = {pda_object_creator.get_symbol_from(x)
                          for x in self._terminals}
         stack_alphabet = {pda_object_creator.get_stack_symbol_from(x)
-                          for x in self._terminals.union(self._variables)}
+                          for x in self._terminals.union(variables)}
         start_stack_symbol = pda_object_creator.get_stack_symbol_from(
-            self._start_symbol)
+            start_symbol)
         new_pda = pda.PDA(states={state},
                           input_symbols=input_symbols,
                           stack_alphabet=stack_alphabet,
@@ -833,7 +841,7 @@ class CFG:
                 other = other.to_deterministic()
         else:
             raise NotImplementedError
-        if other.is_empty():
+        if other.is_empty() or self._start_symbol is None:
             return CFG()
         generate_empty = self.contains([]) and other.accepts([])
         cfg = self.to_normal_form()
